@@ -249,7 +249,7 @@ def mac_ref(s):
 def scen_mac(ctx, M):
     nu = M.nu
     n = ctx.choice('n', ctx.p['lengths'])
-    dom = frozenset(b'09afAFgG:-\n. ')
+    dom = frozenset(b'09afAFgG:-\n. _[`@')
     s = ctx.str('s', n, dom)
     r = call(nu.is_valid_mac, s)
     ctx.check('C11-mac-never-raises', r[0] == 'ret')
